@@ -2,6 +2,7 @@
 import TaRs.Lemmas.Core.MovingAverageConvergenceDivergence
 import TaRs.Gen.MovingAverageConvergenceDivergence
 import TaRs.Lemmas.ExponentialMovingAverage
+import TaRs.Lemmas.Total.MovingAverageConvergenceDivergence
 namespace TaRs.Gen.MovingAverageConvergenceDivergence
 open TaRs TaRs.Rs
 variable {F : Type} [Scalar F]
@@ -40,32 +41,5 @@ theorem next_eq_let (s : MovingAverageConvergenceDivergence F) (x : F) :
        some ({ fast_ema := f, slow_ema := sl, signal_ema := sg },
              { macd := m, signal := sg.current, histogram := Scalar.sub m sg.current })) :=
   next_eq s x
-
-theorem nextBar_eq (s : MovingAverageConvergenceDivergence F) (b : Bar F) :
-    s.nextBar b = s.next b.close := by
-  unfold nextBar
-  try simp only [gen_helper]
-  cases h : s.next b.close <;> simp [h]
-
-theorem next_total (s : MovingAverageConvergenceDivergence F) (x : F) (h : WF s) :
-    ∃ r, s.next x = some r ∧ WF r.1 ∧ r.1.fast_ema.period = s.fast_ema.period ∧
-      r.1.slow_ema.period = s.slow_ema.period ∧ r.1.signal_ema.period = s.signal_ema.period := by
-  refine ⟨_, next_eq s x, ⟨?_, ?_, ?_⟩, ?_, ?_, ?_⟩
-  · obtain ⟨r, hr, hw, _⟩ := ExponentialMovingAverage.next_total s.fast_ema x h.fast
-    rw [ExponentialMovingAverage.next_eq] at hr; cases hr; exact hw
-  · obtain ⟨r, hr, hw, _⟩ := ExponentialMovingAverage.next_total s.slow_ema x h.slow
-    rw [ExponentialMovingAverage.next_eq] at hr; cases hr; exact hw
-  · obtain ⟨r, hr, hw, _⟩ := ExponentialMovingAverage.next_total s.signal_ema
-      (Scalar.sub (ExponentialMovingAverage.step s.fast_ema x).current
-                  (ExponentialMovingAverage.step s.slow_ema x).current) h.signal
-    rw [ExponentialMovingAverage.next_eq] at hr; cases hr; exact hw
-  · exact ExponentialMovingAverage.step_period _ _
-  · exact ExponentialMovingAverage.step_period _ _
-  · exact ExponentialMovingAverage.step_period _ _
-
-theorem nextBar_total (s : MovingAverageConvergenceDivergence F) (b : Bar F) (h : WF s) :
-    ∃ r, s.nextBar b = some r ∧ WF r.1 ∧ r.1.fast_ema.period = s.fast_ema.period ∧
-      r.1.slow_ema.period = s.slow_ema.period ∧ r.1.signal_ema.period = s.signal_ema.period := by
-  rw [nextBar_eq]; exact next_total s b.close h
 
 end TaRs.Gen.MovingAverageConvergenceDivergence
